@@ -185,4 +185,45 @@ def run(chk, facts_dir, tier):
         chk.ok("R13.4", "main: storage buckets and cluster partitions derive from one assigned_buckets() value", mb.where(ab[0][1]["line"]))
     else:
         chk.fail("R13.4", "sierradb::main", "two-placements", "the buckets opened for storage and the partitions announced to the cluster are not derived from the same assigned_buckets() value", mb)
+    # ---- R13.5 role binding at the placement kernels
+    chk.rule("R13.5", "ROLE BINDING: at every call of a placement kernel (calculate_partition_replicas, calculate_assigned_partitions, assigned_buckets/assigned_partitions) the "
+                      "argument bound to a parameter named bucket_count / num_partitions / total_node_count / replication_factor is not computed from a field, parameter or "
+                      "captured variable that carries another of these role names (same-typed quantities bound crosswise: routing would use `partition % partitions` where "
+                      "storage uses `partition % buckets`)")
+    ROLES = ("bucket_count", "num_partitions", "total_node_count", "replication_factor", "partition_count", "node_count")
+    n5 = 0
+    for p, b in sorted(prog.bodies.items()):
+        if "/tests/" in b.file:
+            continue
+        ev = None
+        for bi, t in b.calls():
+            c = b.callee(t) or b.callee_decl(t) or ""
+            kb = prog.bodies.get(c)
+            if kb is None or kb.argc < 2:
+                continue
+            pnames = [kb.local_name(i + 1) for i in range(kb.argc)]
+            if len([n_ for n_ in pnames if n_ in ROLES]) < 2:
+                continue
+            ev = ev or Ev(prog, b)
+            for i, a in enumerate(t["args"][:kb.argc]):
+                pn = pnames[i]
+                if pn not in ROLES:
+                    continue
+                term = resolve_upvars(prog, ev.operand(a, (bi, "T")), b)
+                names = set()
+                for x in walk(term):
+                    if isinstance(x, tuple) and x:
+                        if x[0] == "field" and x[2] in ROLES:
+                            names.add(x[2])
+                        elif x[0] == "param" and x[2] in ROLES:
+                            names.add(x[2])
+                        elif x[0] == "upvar" and x[1].split(".")[-1] in ROLES:
+                            names.add(x[1].split(".")[-1])
+                n5 += 1
+                if names and pn not in names:
+                    chk.fail("R13.5", b.root or b.path, "crossed-roles:%s<-%s" % (pn, ",".join(sorted(names))), "the `%s` parameter of %s is given a value computed from `%s`" %
+                             (pn, c.rsplit("::", 1)[-1], ", ".join(sorted(names))), b, t["line"])
+                else:
+                    chk.ok("R13.5", "%s(.. %s ..) bound to %s" % (c.rsplit("::", 1)[-1], pn, sorted(names) or "a local value"), b.where(t["line"]))
+    chk.floor("R13.5", n5, 8)
     return {}
